@@ -97,10 +97,11 @@ func (s *SourceSplitter) Start(ckpt *snapshotpb.SourceCheckpoint) error {
 	if err != nil {
 		return fmt.Errorf("kinesis.SourceSplitter failed to discover shards: %w", err)
 	}
-	pendingShards = append(pendingShards, s.splitTracker.AvailableSplits()...)
 
-	// Do the initial split assignment
-	s.assignShards(ctx, pendingShards)
+	// Do the initial split assignment. The restored shards were loaded into the
+	// tracker as unassigned, so AvailableSplits returns them along with the newly
+	// discovered ones (adding them separately assigned each of them twice).
+	s.assignShards(ctx, s.splitTracker.AvailableSplits())
 
 	// Setup background shard assignment
 	s.shardDiscoveryTicker = time.NewTicker(s.shardDiscoveryInterval)
